@@ -588,3 +588,90 @@ Ltac cell_inst unf A rw :=
   [ rw; simpl; reflexivity
   | match goal with |- context [ref_actual ?c] => destruct (ref_actual c) end; cbv [obind omap]; [|reflexivity];
     rw; simpl; first [reflexivity | f_equal; apply dist_sym] ].
+
+(* ------------------------------------------------------------------ examples: the hypotheses of the theorems are met *)
+Definition ex_p : pt R := MkPt 0 0 0 2.
+Definition ex_d : pt R := MkPt 10 0 0 4.
+
+Example ex_not_coincide : ~ coincide ex_p ex_d.
+Proof. unfold coincide, ex_p, ex_d. simpl. intros (H & _). lra. Qed.
+
+Example ex_dist : dist ex_p ex_d = 10.
+Proof.
+  unfold dist, ex_p, ex_d. simpl.
+  replace ((0 - 10) * (0 - 10) + (0 - 0) * (0 - 0) + (0 - 0) * (0 - 0)) with (10 * 10) by ring.
+  apply sqrt_square. lra.
+Qed.
+
+(* a frustum of length 10 with radii 1 and 2: V = pi/3 * 10 * (1 + 4 + 2) = 70 pi / 3 *)
+Example ex_volume : ref_volume false ex_p ex_d = Val (70 * PI / 3).
+Proof.
+  rewrite (ref_volume_frustum _ _ ex_not_coincide). rewrite ex_dist. unfold frustum_volume, rad, ex_p, ex_d. simpl.
+  f_equal. field.
+Qed.
+
+Example ex_sphere : ref_volume false ex_p ex_p = Val (4 / 3 * PI) /\ ref_area false ex_p ex_p = Val (4 * PI).
+Proof.
+  assert (C : coincide ex_p ex_p) by (unfold coincide; repeat split).
+  rewrite (ref_volume_sphere _ _ C eq_refl), (ref_area_sphere _ _ C eq_refl).
+  unfold sphere_volume, sphere_area, rad, ex_p. simpl. split; f_equal; field.
+Qed.
+
+Example ex_ambiguous : ref_volume false ex_p (MkPt 0 0 0 3) = Exc.
+Proof. apply ref_volume_ambiguous; [unfold coincide; repeat split | simpl; lra]. Qed.
+
+(* a child without proximal attached half way along a parent that has one *)
+Definition ex_parent : seg R := MkSeg (Some ex_p) ex_d 1.
+Definition ex_child : seg R := MkSeg None (MkPt 5 5 0 1) (1 / 2).
+
+Example ex_inherited : ref_actual [ex_child; ex_parent] = Val (MkPt 5 0 0 3).
+Proof.
+  rewrite (ref_actual_inherited ex_child ex_parent [] ex_p eq_refl eq_refl).
+  unfold lerp, ex_child, ex_parent, ex_p, ex_d. simpl. f_equal. apply pt_eq; field.
+Qed.
+
+(* ------------------------------------------------------------------ meaning of the wf obligation: no division by zero *)
+Fixpoint divisors_nonzero (e : gexpr) (env : list R) : Prop :=
+  match e with
+  | GVar _ | GInt _ | GPi => True
+  | GFrac _ _ => True
+  | GAdd a b | GSub a b | GMul a b => divisors_nonzero a env /\ divisors_nonzero b env
+  | GDiv a b => divisors_nonzero a env /\ divisors_nonzero b env /\ eval RA b env <> 0
+  | GNeg a | GSqrt a | GPowHalf a | GPow a _ => divisors_nonzero a env
+  end.
+
+Lemma wf_expr_safe : forall nv e env, wf_expr nv e = true -> divisors_nonzero e env.
+Proof.
+  intros nv e env. induction e; simpl; intro H; try exact I;
+    try (apply andb_true_iff in H; destruct H as [H1 H2]; split; [apply IHe1; assumption | apply IHe2; assumption]);
+    try (apply IHe; assumption).
+  - apply andb_true_iff in H. destruct H as [H1 H2]. split; [apply IHe1; assumption|].
+    destruct e2; try discriminate. simpl. split; [exact I|].
+    apply negb_true_iff in H2. apply Z.eqb_neq in H2. apply not_0_IZR. assumption.
+  - apply andb_true_iff in H. destruct H as [H1 _]. apply IHe. assumption.
+Qed.
+
+Fixpoint prog_divisors_nonzero (p : gprog) (env : list R) : Prop :=
+  match p with
+  | PRet e => divisors_nonzero e env
+  | PRaise => True
+  | PIf _ t e => prog_divisors_nonzero t env /\ prog_divisors_nonzero e env
+  end.
+
+Theorem wf_prog_safe : forall nv p env, wf_prog nv p = true -> prog_divisors_nonzero p env.
+Proof.
+  intros nv p env. induction p; simpl; intro H.
+  - eapply wf_expr_safe; eassumption.
+  - exact I.
+  - apply andb_true_iff in H. destruct H as [H H3]. apply andb_true_iff in H. destruct H as [_ H2].
+    split; [apply IHp1 | apply IHp2]; assumption.
+Qed.
+
+Theorem wf_table_safe : forall g, wf_table g = true -> forall env,
+  prog_divisors_nonzero (g_length g) env /\ prog_divisors_nonzero (g_volume g) env
+  /\ prog_divisors_nonzero (g_area g) env /\ prog_divisors_nonzero (g_distance g) env.
+Proof.
+  intros g H env. unfold wf_table in H.
+  repeat match goal with H : _ && _ = true |- _ => apply andb_true_iff in H; destruct H end.
+  repeat split; eapply wf_prog_safe; eassumption.
+Qed.
